@@ -3,6 +3,8 @@ package work
 import (
 	"bytes"
 	"fmt"
+	"strconv"
+	"strings"
 
 	"github.com/Eyevinn/mp4ff/mp4"
 
@@ -21,6 +23,7 @@ type Struct struct {
 	SegMode  bool   // a fragmented File in EncModeSegment: Children is not the encoding order
 	Input    []byte // decoded: the accepted byte string
 	Desc     string
+	Recipe   string           // api structures of the fixed codec-configuration family: the recipe FromRecipe rebuilds them from
 	New      func() Encodable // fresh instance (nil result: could not be rebuilt)
 }
 
@@ -270,7 +273,317 @@ func FromHistory(c *runner.Ctx, r *runner.Rand, h *genfrag.History) []Struct {
 				return ms
 			}})
 	}
+	// one member of the family of codec-configuration structures (esds descriptor sizes and flags, dec3 substreams)
+	out = append(out, FromRecipe(c, PickRecipe(r))...)
 	return out
+}
+
+// ---------------------------------------------------------------------------
+// API-built codec configuration: esds (MPEG-4 descriptors) and dec3
+
+// A recipe is a self-contained description of one API-built structure family
+// member, e.g. "esds n=104 flags=0x20 url=0 fill=0 wrap=stsd" or
+// "dec3 deps=0,1,0 nis=0 fill=0 wrap=init". FromRecipe(recipe) always builds
+// the same structures, so a witness needs nothing but the string.
+
+// Sizes at which the base-128 size field of a descriptor needs one more digit.
+var descLimits = []int{1 << 7, 1 << 14, 1 << 21}
+
+// esFixed is the number of bytes around the DecoderSpecificInfo payload in an
+// ES_Descriptor payload as CreateESDescriptor lays it out with one-digit size
+// fields (14496-1 syntax: ES_ID 2, flags 1, DecoderConfigDescriptor tag+size 2
+// and fixed part 13, DecoderSpecificInfo tag+size 2, SLConfigDescriptor 3).
+const esFixed = 3 + 2 + 13 + 2 + 3
+
+var esURLLens = []int{0, 1, 23, 255}
+
+// PickRecipe draws one recipe: descriptor payload sizes swept through the
+// windows below 2^7, 2^14 and 2^21 (wide enough that the payload of each of
+// the three nested descriptors passes limit-2 .. limit+1 whatever the lengths
+// of the inner size fields), the flag lattice of the ES_Descriptor with the
+// dependent fields, and dec3 boxes with 1..8 independent substreams.
+func PickRecipe(r *runner.Rand) string {
+	wraps := []string{"mp4a", "mp4a+btrt", "stsd", "init"}
+	window := func() int {
+		switch roll := r.Intn(100); {
+		case roll < 60:
+			return 96 + r.Intn(37) // 96..132
+		case roll < 85:
+			return 1<<14 - 34 + r.Intn(39) // 16350..16388
+		case roll < 90:
+			return 1<<21 - 34 + r.Intn(38) // 2097118..2097155
+		}
+		return []int{0, 1, 2, 5, 50}[r.Intn(5)]
+	}
+	fill := 0
+	if r.Chance(1, 4) {
+		fill = 1
+	}
+	switch roll := r.Intn(100); {
+	case roll < 45:
+		return fmt.Sprintf("esds n=%d flags=0x00 url=0 fill=%d wrap=%s", window(), fill, wraps[r.Intn(len(wraps))])
+	case roll < 75:
+		flags := r.Intn(8) << 5
+		if r.Bool() {
+			flags |= r.Intn(32)
+		}
+		url := 0
+		if flags&0x40 != 0 || fill == 1 {
+			url = esURLLens[r.Intn(len(esURLLens))]
+		}
+		extra := 0
+		if flags&0x80 != 0 {
+			extra += 2
+		}
+		if flags&0x40 != 0 {
+			extra += 1 + url
+		}
+		if flags&0x20 != 0 {
+			extra += 2
+		}
+		n := 2
+		switch k := r.Intn(4); {
+		case k < 2: // ES_Descriptor payload at limit-2 .. limit+1
+			lim := descLimits[0]
+			if r.Chance(1, 5) {
+				lim = descLimits[1]
+			}
+			n = lim - 2 + r.Intn(4) - esFixed - extra
+			if n < 0 {
+				n = 5
+			}
+		case k == 2:
+			n = window()
+		default:
+			n = []int{2, 5}[r.Intn(2)]
+		}
+		return fmt.Sprintf("esds n=%d flags=0x%02x url=%d fill=%d wrap=%s", n, flags, url, fill, wraps[r.Intn(len(wraps))])
+	}
+	nInd := 1 + r.Intn(3)
+	if r.Chance(1, 8) {
+		nInd = 4 + r.Intn(5)
+	}
+	deps := make([]string, nInd)
+	for i := range deps {
+		d := 0
+		if r.Chance(1, 3) {
+			d = 1 + r.Intn(15)
+			if r.Bool() {
+				d = 1
+			}
+		}
+		deps[i] = strconv.Itoa(d)
+	}
+	nis := 0 // NumIndSub left at its zero value, as in a literal that only lists the substreams
+	if r.Chance(1, 3) {
+		nis = 1 // NumIndSub = len(EC3Subs)-1
+	}
+	return fmt.Sprintf("dec3 deps=%s nis=%d fill=%d wrap=%s", strings.Join(deps, ","), nis, fill,
+		[]string{"dec3", "ec-3", "init", "init", "decoded+append"}[r.Intn(5)])
+}
+
+func recipeFields(recipe string) (string, map[string]string) {
+	parts := strings.Fields(recipe)
+	if len(parts) == 0 {
+		return "", nil
+	}
+	m := map[string]string{}
+	for _, p := range parts[1:] {
+		if i := strings.IndexByte(p, '='); i > 0 {
+			m[p[:i]] = p[i+1:]
+		}
+	}
+	return parts[0], m
+}
+
+// configOf is a decoder configuration of n bytes that starts like an
+// AudioSpecificConfig (AAC-LC, 48 kHz, stereo).
+func configOf(n int) []byte {
+	b := make([]byte, n)
+	for i := range b {
+		b[i] = byte(0x21 + i)
+	}
+	copy(b, []byte{0x11, 0x90})
+	return b
+}
+
+func newAudioInit(c *runner.Ctx) *mp4.InitSegment {
+	var init *mp4.InitSegment
+	if pi := c.Guard(func() {
+		init = mp4.CreateEmptyInit()
+		init.AddEmptyTrack(48000, "audio", "en")
+	}); pi != nil || init == nil || init.Moov == nil || init.Moov.Trak == nil {
+		return nil
+	}
+	return init
+}
+
+// FromRecipe builds the structures of one recipe (nil for an unknown one).
+func FromRecipe(c *runner.Ctx, recipe string) []Struct {
+	fam, f := recipeFields(recipe)
+	atoi := func(k string) int {
+		v, _ := strconv.ParseInt(f[k], 0, 32)
+		return int(v)
+	}
+	switch fam {
+	case "esds":
+		n, flags, url, fill, wrap := atoi("n"), byte(atoi("flags")), atoi("url"), atoi("fill") == 1, f["wrap"]
+		if n < 0 || n > 4<<20 || url < 0 || url > 255 {
+			return nil
+		}
+		class := "esds descriptor-size sweep"
+		if flags != 0 {
+			class = "esds ES_Descriptor flags"
+		}
+		// CreateEsdsBox, then the public fields of the embedded ES_Descriptor
+		mkEsds := func() *mp4.EsdsBox {
+			e := mp4.CreateEsdsBox(configOf(n))
+			e.FlagsAndPriority = flags
+			if flags&0x80 != 0 || fill {
+				e.DependsOnEsID = 0x0a0b
+			}
+			if flags&0x40 != 0 || fill {
+				e.URLString = strings.Repeat("http://example.com/es/", 12)[:url]
+			}
+			if flags&0x20 != 0 || fill {
+				e.OCResID = 0x0102
+			}
+			return e
+		}
+		mkEntry := func() *mp4.AudioSampleEntryBox {
+			a := mp4.CreateAudioSampleEntryBox("mp4a", 2, 16, 48000, mkEsds())
+			if wrap == "mp4a+btrt" {
+				a.AddChild(&mp4.BtrtBox{BufferSizeDB: 6144, MaxBitrate: 128000, AvgBitrate: 96000})
+			}
+			return a
+		}
+		out := []Struct{{Kind: "api/esds[" + class + "]", Recipe: recipe, Desc: recipe, New: func() Encodable {
+			var e *mp4.EsdsBox
+			if pi := c.Guard(func() { e = mkEsds() }); pi != nil || e == nil {
+				return nil
+			}
+			return e
+		}}}
+		var outer func() Encodable
+		typ := "mp4a"
+		switch wrap {
+		case "mp4a", "mp4a+btrt":
+			outer = func() Encodable { return mkEntry() }
+		case "stsd":
+			typ = "stsd"
+			outer = func() Encodable {
+				st := mp4.NewStsdBox()
+				st.AddChild(mkEntry())
+				return st
+			}
+		case "init":
+			typ = "InitSegment"
+			outer = func() Encodable {
+				init := newAudioInit(c)
+				if init == nil {
+					return nil
+				}
+				init.Moov.Trak.Mdia.Minf.Stbl.Stsd.AddChild(mkEntry())
+				return init
+			}
+		default:
+			return out
+		}
+		return append(out, Struct{Kind: "api/" + typ + "[" + class + "]", Recipe: recipe, Desc: recipe, New: func() Encodable {
+			var x Encodable
+			if pi := c.Guard(func() { x = outer() }); pi != nil {
+				return nil
+			}
+			return x
+		}})
+	case "dec3":
+		var deps []int
+		for _, d := range strings.Split(f["deps"], ",") {
+			v, err := strconv.Atoi(d)
+			if err != nil || v < 0 || v > 15 {
+				return nil
+			}
+			deps = append(deps, v)
+		}
+		if len(deps) == 0 || len(deps) > 8 {
+			return nil
+		}
+		nis, fill, wrap := atoi("nis"), atoi("fill") == 1, f["wrap"]
+		sub := func(i int) mp4.EC3Sub {
+			s := mp4.EC3Sub{FSCod: byte(i % 3), BSID: 16, ASVC: byte(i & 1), BSMod: byte(i % 8), ACMod: byte((7 - i) % 8), LFEOn: byte((i + 1) & 1), NumDepSub: byte(deps[i])}
+			if deps[i] > 0 || fill {
+				s.ChanLoc = uint16(0x101>>uint(i)) & 0x1ff
+			}
+			return s
+		}
+		// the box as a caller writes it (there is no constructor): a literal that lists the substreams
+		mkDec3 := func() *mp4.Dec3Box {
+			d := &mp4.Dec3Box{DataRate: uint16(192 * len(deps))}
+			first := 0
+			if wrap == "decoded+append" {
+				// a decoded one-substream box (5.1) to which the caller appends substreams
+				raw := []byte{0, 0, 0, 0x0d, 'd', 'e', 'c', '3', 0x08, 0x00, 0x20, 0x0f, 0x00}
+				b, err := mp4.DecodeBox(0, bytes.NewReader(raw))
+				dd, ok := b.(*mp4.Dec3Box)
+				if err != nil || !ok {
+					return nil
+				}
+				d, first = dd, 1
+				if deps[0] > 0 {
+					d.EC3Subs[0].NumDepSub, d.EC3Subs[0].ChanLoc = byte(deps[0]), 0x101
+				}
+			}
+			for i := first; i < len(deps); i++ {
+				d.EC3Subs = append(d.EC3Subs, sub(i))
+			}
+			if nis == 1 {
+				d.NumIndSub = uint16(len(d.EC3Subs) - 1)
+			}
+			return d
+		}
+		var build func() Encodable
+		kind := "api/dec3[literal]"
+		switch wrap {
+		case "dec3":
+			build = func() Encodable {
+				if d := mkDec3(); d != nil {
+					return d
+				}
+				return nil
+			}
+		case "ec-3":
+			kind = "api/ec-3[dec3 literal]"
+			build = func() Encodable {
+				d := mkDec3()
+				if d == nil {
+					return nil
+				}
+				return mp4.CreateAudioSampleEntryBox("ec-3", 6, 16, 48000, d)
+			}
+		case "init", "decoded+append":
+			kind = "api/InitSegment[SetEC3Descriptor]"
+			if wrap != "init" {
+				kind = "api/InitSegment[SetEC3Descriptor,decoded dec3 + appended substreams]"
+			}
+			build = func() Encodable {
+				d, init := mkDec3(), newAudioInit(c)
+				if d == nil || init == nil || init.Moov.Trak.SetEC3Descriptor(d) != nil {
+					return nil
+				}
+				return init
+			}
+		default:
+			return nil
+		}
+		return []Struct{{Kind: kind, Recipe: recipe, Desc: recipe, New: func() Encodable {
+			var x Encodable
+			if pi := c.Guard(func() { x = build() }); pi != nil {
+				return nil
+			}
+			return x
+		}}}
+	}
+	return nil
 }
 
 // BuildFileBytes assembles the whole file of a history (init + media
